@@ -7,7 +7,6 @@ import (
 	"math/rand"
 	"os"
 	"reflect"
-	"sort"
 	"strings"
 	"sync"
 	"time"
@@ -104,27 +103,93 @@ func specDir(c *core.Ctx) string {
 	return c.SpecDir
 }
 
+func tlcCfg(c *core.Ctx) string {
+	return fmt.Sprintf("CONSTANTS\n OpenDev = %s\n Fuel = 300\nINIT Init\nNEXT Next\nCONSTRAINT Judge\nCHECK_DEADLOCK FALSE\n", core.TLASet(c.Findings.OpenIDs()))
+}
+
+// totals over all batches of a run
+type totals struct {
+	states, transitions                  int64
+	programs, runs, runLines, routeDiff  int64
+	synCases, synRoutes                  int64
+	und, bad, dev                        int64
+	endErr, endNormal                    int64
+	maxFrames                            int
+	tlcWall                              float64
+	tagUnd, devByTag, errCount, ctxCount map[string]int
+	pairs                                map[string]int
+	layouts                              map[string]int
+	samples                              []any
+	self                                 map[string]any
+}
+
+func newTotals() *totals {
+	return &totals{tagUnd: map[string]int{}, devByTag: map[string]int{}, errCount: map[string]int{}, ctxCount: map[string]int{},
+		pairs: map[string]int{}, layouts: map[string]int{}, samples: []any{}, self: map[string]any{}}
+}
+
 // Check generates positioned programs and broken sources, runs them, and has TLC judge the observations.
 func Check(c *core.Ctx) (map[string]any, []string, error) {
-	nProg, nSyn := 2400, 1500
+	nProg, nSyn, batches := 4000, 2000, 1
 	if c.Thorough() {
-		nProg, nSyn = 60000, 20000
+		nProg, nSyn, batches = 8000, 3000, 8
 	}
 	if s := os.Getenv("VERIF_C19_PROGRAMS"); s != "" {
 		fmt.Sscan(s, &nProg)
 		nSyn = nProg / 2
 	}
-	rng := rand.New(rand.NewSource(c.Seed*7919 + 19))
+	if s := os.Getenv("VERIF_C19_BATCHES"); s != "" {
+		fmt.Sscan(s, &batches)
+	}
+	t := newTotals()
+	for b := 0; b < batches; b++ {
+		rng := rand.New(rand.NewSource(c.Seed*7919 + 19 + int64(b)*104729))
+		selfTestNow := b == 0 && (c.Thorough() || os.Getenv("VERIF_C19_SELFTEST") != "")
+		if err := runBatch(c, rng, nProg, nSyn, t, selfTestNow); err != nil {
+			return nil, nil, err
+		}
+	}
+	if len(t.samples) == 0 {
+		t.samples = append(t.samples, "none")
+	}
+	judged := t.runLines + t.synCases
+	cov := map[string]any{
+		"states": t.states, "transitions": t.transitions, "traces_validated_against_impl": judged,
+		"samples": t.samples, "batches": batches, "programs": t.programs, "program_runs": t.runs, "run_cases_judged": t.runLines,
+		"routes_differing_judged_individually": t.routeDiff,
+		"syntax_cases":                         t.synCases, "syntax_route_checks": t.synRoutes,
+		"undecided_left_modelled_fragment": t.und, "undecided_by_tag": t.tagUnd,
+		"rejected": t.bad, "conforming_to_known_deviation": t.dev, "deviation_hits_by_tag": t.devByTag,
+		"conforming":  judged - t.und - t.bad - t.dev,
+		"error_kinds": t.errCount, "contexts": t.ctxCount, "layouts": t.layouts, "context_error_pairs_covered": len(t.pairs),
+		"context_error_pairs_possible": len(CtxKinds) * len(ErrKinds),
+		"runs_ending_in_error":         t.endErr, "runs_ending_normally": t.endNormal, "max_frames_observed": t.maxFrames,
+		"trace_limits": "0..12 and depth..depth+2", "nesting_depth": "0..4 contexts (plus built-in frames)",
+		"binding_self_test": t.self, "tlc_wall_s": t.tlcWall,
+	}
+	assumptions := []string{
+		"programs come from the seeded generator harness/internal/c19/gen.go; the renderer harness/internal/c19/render.go is trusted to report the offset at which it wrote each node (cross-checked only by the agreement of many thousand positions with the implementation)",
+		"oracle: spec/ErrSpec.tla over spec/ES5Core.tla evaluated by TLC on the same tree: error class and prototype chain as seen by catch blocks, Error() text by 15.11.4.4, the call stack with the position of every call site, line/column by 7.3",
+		"call-site convention (not fixed by ES5): the first token of the callee / member / binary / assignment expression, grouping parentheses skipped, for new the first token of the constructor expression; 1-based line and column in characters; trace limit <= 0 means no limit",
+		"message text of interpreter-raised errors is not specified: only its non-emptiness (probe M) and the 'Name: ' prefix of Error() are judged; native frames are judged only as native",
+		"syntax errors: the harness breaks a valid text by one token at a place where the result cannot be continued and names the offending token's offset; the specification contributes the offset -> line/column rule (7.3) only",
+	}
+	return cov, assumptions, nil
+}
+
+func runBatch(c *core.Ctx, rng *rand.Rand, nProg, nSyn int, t *totals, selfTestNow bool) error {
 	g := &gen{r: rng}
 	recs := make([]*rec, nProg)
 	for i := range recs {
 		sc := g.scenario(i)
-		recs[i] = &rec{sc: sc, rd: Render(sc.Prog, layoutFor(rng, i))}
+		lay := layoutFor(rng, i)
+		recs[i] = &rec{sc: sc, rd: Render(sc.Prog, lay)}
+		t.layouts[fmt.Sprintf("terminators=%d nonascii=%v", len(lay.Terms), lay.NonASCII)]++
 	}
+	t.programs += int64(nProg)
 	// run both routes in parallel
 	var wg sync.WaitGroup
 	jobs := make(chan *rec, 256)
-	var nRuns int64
 	var mu sync.Mutex
 	for w := 0; w < c.Workers; w++ {
 		wg.Add(1)
@@ -154,7 +219,7 @@ func Check(c *core.Ctx) (map[string]any, []string, error) {
 						r.plain = o
 					}
 					mu.Lock()
-					nRuns++
+					t.runs++
 					mu.Unlock()
 				}
 				r.ok = err == nil
@@ -176,7 +241,6 @@ func Check(c *core.Ctx) (map[string]any, []string, error) {
 	}
 	byID := map[int]key{}
 	next := 0
-	var nRouteDiff int64
 	for _, r := range recs {
 		if !r.ok {
 			continue
@@ -186,17 +250,17 @@ func Check(c *core.Ctx) (map[string]any, []string, error) {
 		enc.Encode(runLine{ID: next, Kind: "run", Prog: r.sc.Prog, Files: r.rd.Files, TLimit: r.sc.TLimit, Named: true, Obs: r.named})
 		if !sameJSON(withoutSrc(r.named), r.plain) {
 			// the two routes differ in more than the file name: judge the plain route on its own
-			nRouteDiff++
+			t.routeDiff++
 			next++
 			byID[next] = key{r: r, named: false}
 			enc.Encode(runLine{ID: next, Kind: "run", Prog: r.sc.Prog, Files: r.rd.Files, TLimit: r.sc.TLimit, Named: false, Obs: r.plain})
 		}
 	}
-	nRunLines := next
+	t.runLines += int64(next)
 
 	// syntax errors
 	syns := genSyntax(rng, recs, nSyn)
-	var nSynRoutes int64
+	judgedSyn := []*synCase{}
 	for _, s := range syns {
 		pos, _, err := ParsePosition("parser", s.src)
 		if err != nil {
@@ -207,29 +271,28 @@ func Check(c *core.Ctx) (map[string]any, []string, error) {
 			}
 			continue
 		}
-		nSynRoutes++
+		t.synRoutes++
 		for _, route := range []string{"run", "compile"} {
 			p2, _, err2 := ParsePosition(route, s.src)
 			if err2 != nil || p2 != pos {
 				c.Violate(fmt.Sprintf("route %s reports %v (%v), the parser %v for:\n%s", route, p2, err2, pos, s.src), map[string]any{"source": s.src, "route": route})
 			}
-			nSynRoutes++
+			t.synRoutes++
 		}
 		s.obs = pos
 		next++
 		byID[next] = key{syn: s}
+		judgedSyn = append(judgedSyn, s)
 		enc.Encode(synLine{ID: next, Kind: "syntax", Text: s.text, Off: s.off, Obs: pos})
 	}
-
+	t.synCases += int64(len(judgedSyn))
 	if p := os.Getenv("VERIF_C19_KEEPTRACE"); p != "" {
 		os.WriteFile(p, buf.Bytes(), 0o644) // development aid: judge the same trace by hand with bin/tlcx
 	}
-	var nUnd, nBad, nDev int64
-	tagUnd := map[string]int{}
-	devByTag := map[string]int{}
+
 	reported := map[*rec]bool{}
-	res, err := tlc.Run(tlc.Opts{SpecDir: specDir(c), Module: "C19",
-		Cfg:     fmt.Sprintf("CONSTANTS\n OpenDev = %s\n Fuel = 300\nINIT Init\nNEXT Next\nINVARIANT Check\nCHECK_DEADLOCK FALSE\n", core.TLASet(c.Findings.OpenIDs())),
+	wants := map[int]json.RawMessage{}
+	res, err := tlc.Run(tlc.Opts{SpecDir: specDir(c), Module: "C19", Cfg: tlcCfg(c),
 		Workers: c.Workers, Files: map[string][]byte{"trace.ndjson": buf.Bytes()}, Timeout: 90 * time.Minute, HeapMB: 12000},
 		func(p []byte) {
 			var v verdict
@@ -237,6 +300,14 @@ func Check(c *core.Ctx) (map[string]any, []string, error) {
 				return
 			}
 			k := byID[v.ID]
+			if v.Status == "strict" {
+				// the strict specification rejects the observation: its requirement; the verdict follows
+				wants[v.ID] = v.Want
+				return
+			}
+			if v.Status == "dev" || v.Status == "bad" {
+				v.Want = wants[v.ID]
+			}
 			if k.syn != nil {
 				k.syn.status = v.Status
 			} else if k.named {
@@ -244,24 +315,24 @@ func Check(c *core.Ctx) (map[string]any, []string, error) {
 			}
 			switch v.Status {
 			case "und":
-				nUnd++
-				for _, t := range k.r.sc.Tags {
-					if strings.HasPrefix(t, "err:") || strings.HasPrefix(t, "ctx:") {
-						tagUnd[t]++
+				t.und++
+				for _, tg := range k.r.sc.Tags {
+					if strings.HasPrefix(tg, "err:") || strings.HasPrefix(tg, "ctx:") {
+						t.tagUnd[tg]++
 					}
 				}
 			case "dev":
-				nDev++
+				t.dev++
 				c.Hit("deviation")
 				if k.syn != nil {
-					devByTag["syntax"]++
+					t.devByTag["syntax"]++
 				} else {
-					for _, t := range k.r.sc.Tags {
-						devByTag[t]++
+					for _, tg := range k.r.sc.Tags {
+						t.devByTag[tg]++
 					}
 				}
 			case "bad":
-				nBad++
+				t.bad++
 				if k.syn != nil {
 					s := k.syn
 					p2, _, e2 := ParsePosition("parser", s.src)
@@ -291,80 +362,56 @@ func Check(c *core.Ctx) (map[string]any, []string, error) {
 			}
 		})
 	if err != nil {
-		return nil, nil, err
+		return err
 	}
+	t.states += res.Distinct
+	t.transitions += res.Generated
+	t.tlcWall += res.Wall
 
-	// coverage: which (context, error kind) pairs and layouts were exercised
-	pairs := map[string]int{}
-	errCount := map[string]int{}
-	ctxCount := map[string]int{}
-	caught, uncaught, maxFrames := 0, 0, 0
+	// coverage: which (context, error kind) pairs were exercised
 	for _, r := range recs {
 		if !r.ok {
 			continue
 		}
 		var ek string
-		for _, t := range r.sc.Tags {
-			if strings.HasPrefix(t, "err:") && ek == "" {
-				ek = t[4:]
-				errCount[ek]++
+		for _, tg := range r.sc.Tags {
+			if strings.HasPrefix(tg, "err:") && ek == "" {
+				ek = tg[4:]
+				t.errCount[ek]++
 			}
 		}
-		for _, t := range r.sc.Tags {
-			if strings.HasPrefix(t, "ctx:") {
-				ctxCount[t[4:]]++
-				pairs[t[4:]+"/"+ek]++
+		for _, tg := range r.sc.Tags {
+			if strings.HasPrefix(tg, "ctx:") {
+				t.ctxCount[tg[4:]]++
+				t.pairs[tg[4:]+"/"+ek]++
 			}
 		}
 		if len(r.named.Err) == 1 {
-			uncaught++
-			if n := len(r.named.Err[0].Frames); n > maxFrames {
-				maxFrames = n
+			t.endErr++
+			if n := len(r.named.Err[0].Frames); n > t.maxFrames {
+				t.maxFrames = n
 			}
 		} else {
-			caught++
+			t.endNormal++
 		}
 	}
-	samples := []any{}
-	for _, r := range recs {
-		if r.ok && len(r.named.Err) == 1 && len(r.named.Err[0].Frames) >= 3 && len(samples) < 2 {
-			samples = append(samples, map[string]any{"source": r.rd.Src, "tlimit": r.sc.TLimit, "observed": r.named})
+	if len(t.samples) == 0 {
+		for _, r := range recs {
+			if r.ok && r.status == "" && len(r.named.Err) == 1 && len(r.named.Err[0].Frames) >= 3 && len(t.samples) < 2 {
+				t.samples = append(t.samples, map[string]any{"source": r.rd.Src, "tlimit": r.sc.TLimit, "observed": r.named})
+			}
+		}
+		if len(judgedSyn) > 0 {
+			s := judgedSyn[0]
+			t.samples = append(t.samples, map[string]any{"broken_source": s.src, "mutation": s.mut, "offset": s.off, "observed": s.obs})
 		}
 	}
-	if len(syns) > 0 {
-		samples = append(samples, map[string]any{"broken_source": syns[0].src, "mutation": syns[0].mut, "offset": syns[0].off, "observed": syns[0].obs})
-	}
-	if len(samples) == 0 {
-		samples = append(samples, "none")
-	}
-	self := map[string]any{}
-	if c.Thorough() || os.Getenv("VERIF_C19_SELFTEST") != "" {
-		self, err = selfTest(c, recs, syns)
+	if selfTestNow {
+		self, err := selfTest(c, recs, judgedSyn)
 		if err != nil {
-			return nil, nil, err
+			return err
 		}
+		t.self = self
 	}
-	judged := int64(next)
-	cov := map[string]any{
-		"states": res.Distinct, "transitions": res.Generated, "traces_validated_against_impl": judged,
-		"samples": samples, "programs": nProg, "program_runs": nRuns, "run_cases_judged": nRunLines,
-		"routes_differing_judged_individually": nRouteDiff,
-		"syntax_cases":                         len(syns), "syntax_route_checks": nSynRoutes,
-		"undecided_left_modelled_fragment": nUnd, "undecided_by_tag": tagUnd,
-		"rejected": nBad, "conforming_to_known_deviation": nDev, "deviation_hits_by_tag": devByTag,
-		"conforming":  judged - nUnd - nBad - nDev,
-		"error_kinds": errCount, "contexts": ctxCount, "context_error_pairs_covered": len(pairs),
-		"context_error_pairs_possible": len(CtxKinds) * len(ErrKinds),
-		"runs_ending_in_error":         uncaught, "runs_ending_normally": caught, "max_frames_observed": maxFrames,
-		"binding_self_test": self, "tlc_wall_s": res.Wall,
-	}
-	assumptions := []string{
-		"programs come from the seeded generator harness/internal/c19/gen.go; the renderer harness/internal/c19/render.go is trusted to report the offset at which it wrote each node (it is cross-checked only by the agreement of thousands of positions with the implementation)",
-		"oracle: spec/ErrSpec.tla over spec/ES5Core.tla evaluated by TLC on the same tree: error class and prototype chain as seen by catch blocks, Error() text by 15.11.4.4, the call stack with the position of every call site, line/column by 7.3",
-		"call-site convention (not fixed by ES5): the first token of the callee / member / binary / assignment expression, grouping parentheses skipped, for new the first token of the constructor expression; 1-based line and column in characters; trace limit <= 0 means no limit",
-		"message text of interpreter-raised errors is not specified: only its non-emptiness (probe M) and the 'Name: ' prefix of Error() are judged; native frames are judged only as native",
-		"syntax errors: the harness breaks a valid text by one token at a place where the result cannot be continued and names the offending token's offset; the specification contributes the offset -> line/column rule only",
-	}
-	_ = sort.Strings
-	return cov, assumptions, nil
+	return nil
 }
